@@ -20,6 +20,7 @@ DENY = ["zap", "zap a b"]
 def config_text(jail_cwd: str) -> str:
     return (f'deny zap "NOZAP"\nallow okcmd\nask askcmd "ASKMSG"\n'
             f"allow-redirect {jail_cwd}/out/*\nallow-redirect {jail_cwd}/sub/out/*\ndeny-redirect {jail_cwd}/secret/* \"NOSECRET\"\n"
+            f"allow-redirect {jail_cwd}/only/*\nallow-redirect {jail_cwd}/sub/deep/*\n"
             f"ask-redirect {jail_cwd}/askme/*\n")
 
 
@@ -94,6 +95,25 @@ EXEC_POSITIONS = [
     ("subshell-redir", "( {X} ) 2>&1"), ("bg-subshell", "( {X} & )"), ("nested-fn", "f() { g() { {X}; }; g; }; f"),
     ("cmd-in-key", "declare -A m; m[$({X})]=1"), ("printf-v", "printf -v x %s $({X})"), ("read-here", "read x <<< $({X})"),
     ("mapfile", "mapfile -t a < <({X})"), ("exec-redirect", "exec 3< <({X})"), ("wait-bg", "{X} & wait"),
+    # builtins that evaluate an argument as a variable NAME: the array subscript in it is arithmetic, and bash runs the
+    # substitutions in it although the word is quoted
+    ("name-test-v", "test -v 'a[$({Xq})]'"), ("name-bracket-v", "[ -v 'a[$({Xq})]' ]"), ("name-cond-v", "[[ -v 'a[$({Xq})]' ]]"),
+    ("name-printf-v", "printf -v 'a[$({Xq})]' hi"), ("name-read", "read 'a[$({Xq})]' <<< 1"), ("name-read-r", "read -r b 'a[$({Xq})]' <<< '1 2'"),
+    ("name-read-bt", "read 'a[`{Xq}`]' <<< 1"), ("name-test-v-dq", 'test -v "a[\\$({X})]"'), ("name-unset", "unset 'a[$({Xq})]'"),
+    ("name-let", "let 'a[$({Xq})]=1'"), ("name-declare-i", "declare -i n='a[$({Xq})]'"), ("name-cond-eq", "[[ 'a[$({Xq})]' -eq 0 ]]"),
+    ("name-arith-cmd-q", "(( 'a[$({Xq})]' ))"), ("name-wait-p", "true & wait -p 'a[$({Xq})]' -n"),
+    # arithmetic evaluates the VALUE of a variable it names, recursively: a quoted subscript stored in a variable runs
+    ("value-arith-exp", "x='a[$({Xq})]'; echo $((x))"), ("value-arith-cmd", "x='a[$({Xq})]'; (( x ))"), ("value-cond", "x='a[$({Xq})]'; [[ $x -gt 0 ]]"),
+    ("value-subscript", "x='a[$({Xq})]'; echo ${b[x]}"), ("value-for", "for x in 'a[$({Xq})]'; do echo $((x)); done"),
+    ("value-read", "read x <<< 'a[$({Xq})]'; echo $((x))"), ("value-prefix", "x='a[$({Xq})]' eval 'echo $((x))'"),
+    ("value-indirect", "x='a[$({Xq})]'; y=x; echo $((y))"), ("value-substr", "x='a[$({Xq})]'; v=abc; echo ${v:x}"),
+    # variables that decide WHICH program a name runs (the jail has ../evilbin with the same names, logged as evil:<name>)
+    ("env-path", "PATH=../evilbin:$PATH {X}"), ("env-path-seq", "PATH=../evilbin:$PATH; {X}"), ("env-path-append", "PATH+=:../evilbin; PATH=${PATH#*:}; {X}"),
+    ("env-path-two", "A=1 PATH=../evilbin B=2 {X}"), ("env-path-sub", "( PATH=../evilbin:$PATH; {X} )"), ("env-path-fn", "f() { PATH=../evilbin:$PATH; {X}; }; f"),
+    ("env-path-env", "env PATH=../evilbin {X}"), ("env-path-export", "export PATH=../evilbin:$PATH; {X}"), ("env-path-declare", "declare -x PATH=../evilbin; {X}"),
+    ("env-path-hash", "hash -p ../evilbin/ls ls; {X}"), ("env-bashenv", "echo '{Xq}' > out/rc; BASH_ENV=out/rc bash -c ls"), ("env-ps4", "PS4='$({Xq})'; set -x; ls"),
+    # ... and the OUTPUT of a command substitution inside an arithmetic expansion (data the analyser cannot see: known finding)
+    ("value-output", "echo $(($(echo 'a[$({Xq})]')))"),
 ]
 
 # positions where bash does NOT execute the text (quoting, comments, quoted here-documents):
@@ -128,3 +148,80 @@ def rand_inner(rng: random.Random, depth: int, pool) -> str:
     if "{Xq}" in tmpl and "'" in inner:
         tmpl = "{X}"
     return fill(tmpl, inner)
+
+
+# ------------------------------------------------------------------------------------------------------
+# Directory tracking: every way a directory change (A) can precede a relative write (B) - or look as if it
+# did.  {A} and {B} are filled with every pair of the variants below; the programs are judged by running the
+# approved ones under bash (only/ is granted at the top only, deep/ below sub/ only).
+CD_SLOTS = [
+    "{A}; {B}", "{A} && {B}", "{A} || {B}", "{A}\n{B}", "{A} & {B}", "{A} | {B}", "( {A} ); {B}", "{ {A}; }; {B}", "{ {A}; {B}; }", "( {A}; {B} )",
+    "if {A}; then {B}; fi", "if {A}; then true; else {B}; fi", "if {A}; then true; elif {B}; then true; fi", "if {A}; then true; elif true; then {B}; fi",
+    "if true; then {A}; fi; {B}", "if false; then true; else {A}; fi; {B}", "if false; then true; elif {A}; then {B}; fi", "if {A}; then true; fi; {B}",
+    "if false; then true; elif {A}; then true; else {B}; fi", "if true; then {A}; {B}; fi", "if ! {A}; then {B}; fi", "if {A}; then {B}; else {B}; fi",
+    "if false; then true; elif {A}; then true; elif false; then true; else {B}; fi",
+    "for v in a; do {A}; done; {B}", "for v in a b; do {B}; {A}; done", "for v in a; do {A}; {B}; done", "for v in a; do {A} && {B}; done",
+    "for v in a b; do {A} && {B}; done", "for ((i=0;i<2;i++)); do {B}; {A}; done", "for ((i=0;i<1;i++)); do {A}; done; {B}",
+    "case x in x) {A};; esac; {B}", "case x in x) {A};& y) {B};; esac", "case x in x) {A};;& x) {B};; esac", "case x in x) {A}; {B};; esac",
+    "case x in y) true;; x) {A};& z) true;& w) {B};; esac", "case x in x) {A};; y) {B};; esac; {B}",
+    "! {A}; {B}", "time {A}; {B}", "{A}; ( {B} )", "{A}; echo $({B})", "{A}; cat <({B})", "{A}; { {B}; }", "{A}; if true; then {B}; fi",
+    "{A}; for v in a; do {B}; done", "{A}; ls | {B}", "{A}; {B} &", "{A}; ! {B}", "{A}; time {B}", "{A}; ls; {B}", "{A} && ls && {B}", "{A} && ls; {B}",
+    "{A} && ls || {B}", "ls || {A} && {B}", "true || {A} && {B}", "false || {A} && {B}", "ls && {A} && {B}", "false && {A}; {B}", "ls & {A} && {B}",
+    "{A} && {B} & {B}", "ls | {A}; {B}", "{A} > /dev/null; {B}", "{ {A}; } > /dev/null; {B}", "f() { {A}; }; {B}", "{A}; f() { {B}; }",
+    "[[ -n a ]] && {A}; {B}", "(( 1 )) && {A} && {B}", "[[ -n a ]] && {A} && {B}", "{A}; [[ -n a ]] > only/g2", "{A}; (( 1 )) > deep/g2",
+    "coproc {A}; {B}", "{A} && coproc {B}", "{A}; {A}; {B}", "{A} && {A} && {B}", "{A}; {B}; {A}; {B}",
+    # a redirection on the compound itself is opened before anything inside it runs
+    "if {A}; then true; fi > only/g", "if true; then {A}; fi > only/g", "{ {A}; } > only/g", "( {A} ) > only/g", "for v in a; do {A}; done > only/g",
+    "case x in x) {A};; esac > only/g", "{ {A}; } > deep/g", "if {A}; then true; else true; fi >> only/g", "{A} > only/g", "{A} && true > deep/g",
+    "for ((i=0;i<1;i++)); do {A}; done > only/g", "{ {A} && {B}; } > only/g2", "if {A}; then {B}; fi > only/g2",
+]
+# loops whose end depends on {A}: only with variants of A that let them end
+CD_LOOPS = [("while {A}; do {B}; done", ["cd sub", "cd sub && false", "cd nosuch", "cd sub; false", "cd ./sub/", "cd -- sub", "X=1 cd sub", "command cd sub", "cd sub > /dev/null"]),
+            ("while {A}; do true; done; {B}", ["cd sub", "cd sub && false", "cd nosuch", "cd ./sub/", "command cd sub"]),
+            ("until {A}; do {B}; done", ["cd sub", "cd sub || true", "cd .", "cd /", "cd sub/../sub"]),
+            ("until {A}; do true; done; {B}", ["cd sub", "cd sub || true", "cd ."]),
+            ("while {A} && {B}; do true; done", ["cd sub", "cd ./sub/", "cd nosuch"]),
+            ("while true; do {A} || exit 0; {B}; done", [])]
+CD_A = ["cd sub", "cd sub && false", "cd sub || true", "cd nosuch", "cd sub; false", "! cd sub", "cd sub > /dev/null", "X=1 cd sub", "pushd sub",
+        "cd ./sub/", "cd sub/../sub", "cd sub && cd ..", "cd sub; cd sub", "cd -- sub", "cd -P sub", 'cd "$PWD"/sub', "cd $(echo sub)", "cd sub/.. && cd sub",
+        "cd /", "cd .", "cd", "builtin cd sub", "command cd sub", "eval cd sub", "test -d sub && cd sub", "cd sub 2> /dev/null || exit 1"]
+CD_B = ["ls > only/g", "ls > deep/g", "ls >> ./only/g", "cat f > deep/../deep/g"]
+
+
+def cd_write_programs(tier, rng):
+    out = []
+    pairs = [(a, b) for a in CD_A for b in CD_B]
+    for k, tmpl in enumerate(CD_SLOTS):
+        for j, (a, b) in enumerate(pairs):
+            if tier == "quick" and (j + k) % 4 and a not in ("cd sub", "cd sub && false", "cd sub || true") and "{B}" in tmpl:
+                continue
+            if "{B}" not in tmpl and b != CD_B[0]:
+                continue
+            out.append((f"cd-slot:{k}", tmpl.replace("{A}", a).replace("{B}", b)))
+    for k, (tmpl, avars) in enumerate(CD_LOOPS):
+        for a in avars:
+            for b in CD_B:
+                out.append((f"cd-loop:{k}", tmpl.replace("{A}", a).replace("{B}", b)))
+    return out
+
+
+# ------------------------------------------------------------------------------------------------------
+# Two redirections on one node: every ordered pair of (operator, target), the same target twice included.
+PAIR_OPS = [">", ">>", "<", "<>", "2>", "&>", ">|", "3>", "2>>", "{v}>"]
+PAIR_TARGETS = ["out/g", "nogrant", "secret/s", "f", "/dev/null"]
+PAIR_NODES = [("simple", "cat {R}"), ("brace", "{ cat; } {R}"), ("subshell", "( cat ) {R}"), ("while", "while false; do ls; done {R}"),
+              ("if", "if true; then cat; fi {R}"), ("cond", "[[ -n a ]] {R}"), ("in-cmdsub", "echo $(cat {R})")]
+
+
+def redirect_pairs(tier):
+    """[(label, program, (single1, single2))]: the two programs with one of the redirects each are returned for the
+    composition oracle verdict(pair) = join(verdict(single1), verdict(single2))"""
+    reds = [f"{op} {t}" for op in PAIR_OPS for t in PAIR_TARGETS]
+    out = []
+    for nname, tmpl in (PAIR_NODES[:2] if tier == "quick" else PAIR_NODES):
+        for i, r1 in enumerate(reds):
+            for j, r2 in enumerate(reds):
+                if tier == "quick" and nname != "simple" and (i + j) % 5:
+                    continue
+                out.append((f"redirect-pair:{nname}", tmpl.replace("{R}", f"{r1} {r2}"), (tmpl.replace("{R}", r1), tmpl.replace("{R}", r2))))
+    return out
